@@ -150,7 +150,7 @@ int define_external_variables(
     if (!equal_sign)
     {
       fprintf(stderr, "error: wrong syntax for `-d` option.\n");
-      return ERROR_SUCCESS;
+      return ERROR_INVALID_ARGUMENT;
     }
 
     // Replace the equal sign with null character to split the external
@@ -200,6 +200,11 @@ int define_external_variables(
         result = yr_compiler_define_string_variable(
             compiler, identifier, value);
     }
+
+    // Stop at the first definition that is rejected, a later successful one
+    // must not overwrite its error.
+    if (result != ERROR_SUCCESS)
+      return result;
   }
 
   return result;
